@@ -29,6 +29,23 @@ FC_POOL = ("901", "903")
 KINDS = ("hint-root", "hint-operand", "fc-attach", "brackets", "swap")
 
 
+_SYMBOL = {"U": "\u2227", "O": "\u2228", "X": "\u22bb"}
+
+
+def mixed_notation(text: str, start: int) -> str:
+    """every other operator (beginning with the `start`-th) in MaKo2022 symbol notation, the others as letters: the
+    statement speaks about every valid expression, also one that mixes both spellings on one bracket level"""
+    out, n = [], 0
+    parts = text.split(" ")
+    for p_ in parts:
+        if p_ in _SYMBOL:
+            out.append(_SYMBOL[p_] if (n + start) % 2 == 0 else p_)
+            n += 1
+        else:
+            out.append(p_)
+    return " ".join(out)
+
+
 def variants(base: ts.Tree) -> List[Tuple[str, str, ts.Tree, str]]:
     """[(kind, description, variant tree, variant text)] – every position, every pool key, both sides"""
     out = []
@@ -50,7 +67,11 @@ def variants(base: ts.Tree) -> List[Tuple[str, str, ts.Tree, str]]:
                         ts.replace(base, path + (side,), ts.Node(ts.AND, child, hl)))
                     add("hint-operand", f"[{h}] U operand {path + (side,)}",
                         ts.replace(base, path + (side,), ts.Node(ts.AND, hl, child)))
-            add("swap", f"operands of {sub.op} at {path} swapped", ts.replace(base, path, ts.Node(sub.op, sub.r, sub.l)))
+            swapped = ts.replace(base, path, ts.Node(sub.op, sub.r, sub.l))
+            add("swap", f"operands of {sub.op} at {path} swapped", swapped)
+            for start in (0, 1):
+                add("swap", f"operands of {sub.op} at {path} swapped, operators alternately as symbol / letter ({start})",
+                    swapped, mixed_notation(ts.render(swapped, style="forced"), start))
         if ts.carries_rc(sub):
             for k in FC_POOL:
                 fl = ts.Leaf(ts.FC, k)
